@@ -51,6 +51,19 @@ WORKLOADS = {
 }
 
 
+def skip3(m, n, p, r, q):
+    return S.WL(einsums=WORKLOADS["SKIP3"].einsums, bounds=(("m", m), ("n", n), ("p", p), ("r", r), ("q", q)))
+
+
+# the same shape with a middle Einsum whose working set competes with the live tensor A
+WORKLOADS["SKIP3-44333"] = skip3(4, 4, 3, 3, 3)
+
+
+def einsum_footprints(wl):
+    tb = tensor_bits(wl)
+    return [sum(tb[t] for t, _, _ in wl.tensors_of(e[0])) for e in wl.einsums]
+
+
 def size_grid(wl, quick, wid=""):
     """Sizes are deliberately NOT restricted to multiples of the 8-bit value size: a
     thresholded join oversubscribes exactly when the best mapping needs between 1.0 and
@@ -59,7 +72,10 @@ def size_grid(wl, quick, wid=""):
     if wid == "MV2-424":
         return list(range(16, 41, 3)) if quick else list(range(8, tot + 1))
     if quick:
-        return list(range(8, tot + 8, 16))
+        # plus 8-bit steps around "the largest single Einsum just fits" (where whole-workload and
+        # per-Einsum capacity arguments start to differ)
+        f = max(einsum_footprints(wl))
+        return sorted(set(range(8, tot + 8, 16)) | set(range(max(8, f - 16), f + 41, 8)))
     return sorted(set(range(8, tot + 8, 8)) | {s - d for s in range(16, tot + 8, 8) for d in (1, 2, 3)})
 
 
@@ -151,7 +167,7 @@ def body(cfg):
 def run(ctx):
     afx.serial()
     _Q["quick"] = ctx.quick
-    wids = ["MV2-424", "MM2-2222", "MV3-2222", "SKIP3"] if ctx.quick else list(WORKLOADS)
+    wids = ["MV2-424", "MM2-2222", "MV3-2222", "SKIP3", "SKIP3-44333"] if ctx.quick else list(WORKLOADS)
     metrics = ["E", "ELR"] if ctx.quick else ["E", "L", "EL", "ELR"]
 
     def tree(p):
